@@ -261,6 +261,7 @@ SniBad ==  \* no ClientHello: the connection is closed, no upstream is contacted
     /\ UNCHANGED <<cfg, scr, tbl, sent, fin, timer, ph, scan, hlen, eff, disp, dtbl, tls, hq, fwd, up, upeof, resps>>
 TcpFwd ==
     /\ Kind \in {"tcp", "sni"} /\ hs = "copy" /\ Decided /\ tls \in {"na", "ok"}
+    /\ ~upeof                                  \* a direction that has ended (rt) stays ended
     /\ Have(fwd + 1)
     /\ up' = Append(up, In(fwd + 1)) /\ fwd' = fwd + 1
     /\ UNCHANGED <<cfg, scr, tbl, sent, fin, timer, ph, scan, hlen, eff, disp, dtbl, tls, hs, hq, upeof, resps, closed>>
@@ -371,8 +372,8 @@ AnswersUseEff == \A i \in 1..Len(resps) : resps[i] = "400" \/ \E k \in {"open", 
 (* is sent completely reaches its handler completely                                        *)
 WaitBounded  == <>(ph \notin {"prefix", "line"})
 Complete     == sent = Len(stream) /\ fin
-Admitted     == Ropt # "acl" \/ (cfg.pxy /\ Declares(scr))
-Delivered    == (Complete /\ Decided /\ Kind = "tcp" /\ Admitted /\ tls \in {"na", "ok"})
+Admitted     == Ropt # "acl" \/ eff = "decl"
+Delivered    == (Complete /\ Decided /\ Kind = "tcp" /\ Admitted /\ tls \in {"na", "ok"} /\ ~cfg.rt)
                     ~> (upeof /\ Len(DataOf(up)) = Len(stream) - hlen - (IF tls = "ok" THEN 2 ELSE 0))
 RtHonoured   == (cfg.rt /\ Waiting /\ ~fin) ~> (upeof \/ fin \/ ~Waiting)
 =============================================================================
